@@ -163,7 +163,7 @@ func (fr *Frame) loopFrames(li *loopInfo) map[string][]Term {
 				}
 				// a callee under contract whose modifies clauses are all "param.field" with the
 				// argument for param defined outside the loop writes only through that reference
-				if pairs, ok := fr.contractCallBases(x, outside); ok {
+				if pairs, ok := fr.contractCallBases(li, x, outside); ok {
 					for _, pr := range pairs {
 						add(pr[0], pr[1])
 					}
@@ -208,7 +208,7 @@ func (fr *Frame) assertLoopFrame(name string, refs []Term, pre, post *Heap) {
 
 // contractCallBases returns (heap name, reference) pairs for a call to a function under contract
 // whose modifies clauses are all of the form param.field, with loop-invariant arguments.
-func (fr *Frame) contractCallBases(x ssa.CallInstruction, outside func(ssa.Value) bool) ([][2]string, bool) {
+func (fr *Frame) contractCallBases(li *loopInfo, x ssa.CallInstruction, outside func(ssa.Value) bool) ([][2]string, bool) {
 	vc := fr.vc
 	cc := x.Common()
 	callee := cc.StaticCallee()
@@ -223,6 +223,17 @@ func (fr *Frame) contractCallBases(x ssa.CallInstruction, outside func(ssa.Value
 	var out [][2]string
 	for _, m := range c.Modifies {
 		sel, ok := m.E.(*Sel)
+		inContents := false
+		if !ok {
+			// contents(param.field): the elements of the slice held in a field of the loop-invariant
+			// argument, provided no instruction of the loop rewrites that field
+			if ce, isC := m.E.(*CallE); isC && len(ce.Args) == 1 {
+				if fn, _ := ce.Fun.(*Ident); fn != nil && fn.Name == "contents" {
+					sel, ok = ce.Args[0].(*Sel)
+					inContents = ok
+				}
+			}
+		}
 		if !ok {
 			return nil, false
 		}
@@ -250,9 +261,72 @@ func (fr *Frame) contractCallBases(x ssa.CallInstruction, outside func(ssa.Value
 		if len(names) != 1 {
 			return nil, false
 		}
+		if inContents {
+			fnames := env.modNames(sel) // heap name of the field that holds the slice
+			if len(fnames) != 1 || li == nil || !fr.heapNameUnwrittenIn(li, fnames[0], x) {
+				return nil, false
+			}
+			_, st := structOf(bv.Typ)
+			if st == nil {
+				return nil, false
+			}
+			fi := -1
+			for i := 0; i < st.NumFields(); i++ {
+				if st.Field(i).Name() == sel.Name {
+					fi = i
+				}
+			}
+			if fi < 0 {
+				return nil, false
+			}
+			if _, isSl := st.Field(fi).Type().Underlying().(*types.Slice); !isSl {
+				return nil, false
+			}
+			fp := vc.fieldPtr(bv, fi)
+			if fp == nil {
+				return nil, false
+			}
+			fv := vc.loadPtr(fp, fr.cur)
+			if fv == nil {
+				return nil, false
+			}
+			out = append(out, [2]string{names[0], vc.slice(fv).Base})
+			continue
+		}
 		out = append(out, [2]string{names[0], vc.term(bv)})
 	}
 	return out, true
+}
+
+// heapNameUnwrittenIn: no store or call in the loop (other than through modifies clauses that do not name it)
+// writes the heap name.
+func (fr *Frame) heapNameUnwrittenIn(li *loopInfo, name string, self ssa.CallInstruction) bool {
+	for _, b := range sortedBlocks(li.blocks) {
+		for _, in := range b.Instrs {
+			switch y := in.(type) {
+			case *ssa.Store:
+				for _, n := range fr.staticHeapNames(y.Addr) {
+					if n == name || n == "*" {
+						return false
+					}
+				}
+			case ssa.CallInstruction:
+				if _, isGo := in.(*ssa.Go); isGo {
+					return false
+				}
+				ns, all := fr.callWrites(y)
+				if all {
+					return false
+				}
+				for _, n := range ns {
+					if n == name {
+						return false
+					}
+				}
+			}
+		}
+	}
+	return true
 }
 
 // stableSliceField recognises x = *(&root.f) (a slice-typed field loaded inside the loop) where root is
